@@ -61,6 +61,7 @@ type c05Case struct {
 	Exact []byte           `json:"exact,omitempty"` // replay of one exact input
 	All   bool             `json:"all,omitempty"`   // also enumerate every prefix and every site corruption
 	Bomb  *c05Bomb         `json:"bomb,omitempty"`  // a nested count bomb instead of mutations
+	Scale *c05Scale        `json:"scale,omitempty"` // a time-scaling measurement instead of mutations
 }
 
 type c05Bomb struct {
@@ -78,6 +79,9 @@ func c05Cfg() core.GenCfg {
 }
 
 func genC05(t *rapid.T) c05Case {
+	if rapid.IntRange(0, 1<<20).Draw(t, "scale")%10 == 9 {
+		return c05Case{Scale: &c05Scale{Family: rapid.IntRange(0, len(scaleFamilies)-1).Draw(t, "family"), Trunc: rapid.SampledFrom([]int{0, 0, 0, 1, 3, 4, 6, 7}).Draw(t, "trunc")}}
+	}
 	if rapid.IntRange(0, 11).Draw(t, "bomb") == 0 {
 		b := &c05Bomb{Shape: rapid.IntRange(0, len(c05Bombs)-1).Draw(t, "bombshape"), Depth: rapid.SampledFrom([]int{2, 3, 5, 10, 40, 100, 200, 300}).Draw(t, "bombdepth"),
 			Pad: rapid.SampledFrom([]int{0, 16, 256, 2048, 8192, 30000}).Draw(t, "bombpad")}
@@ -395,6 +399,9 @@ func applyMutation(c *c05Case, m mutation, lens []site) ([]byte, string) {
 }
 
 func (r *c05Runner) run(c c05Case) *Failure {
+	if c.Scale != nil {
+		return r.scale(*c.Scale)
+	}
 	k := allocK(c.S)
 	if c.Exact != nil {
 		return r.one(c.S, c.Exact, k, "exact")
